@@ -23,6 +23,7 @@ type Engine struct {
 	inlineMax int
 	verbose   bool
 	specFns   map[*ssa.Function]*SpecInfo
+	shallowMemo map[shallowKey]error
 	cellSeq   int
 	unrolled  map[string]int // bounded-mode loop unrolling (unused in proof mode)
 	globals   map[*ssa.Global]*Cell
